@@ -296,6 +296,9 @@ pub fn fill_hex(num_vars: usize, table: &mut [u64], s: &str) -> Result<(), ()> {
         let v = u64::from_str_radix(ss, 16);
         match v {
             Ok(v) => {
+                if v & !num_vars_mask(num_vars) != 0 {
+                    return Err(());
+                }
                 *t = v;
             }
             Err(_) => {
